@@ -341,7 +341,11 @@ class C16(Check):
             'still satisfy the oracle; two trees with the same plate numbers and MJDs (other lengths, ids, partly the same '
             'COEFF0/COEFF1) are read alternately in one process; trees in which several plate-MJDs share COEFF0/COEFF1 but differ '
             'in pixel count, shorter first and shorter last, with >= 2 rows per file.  '
-            'Tables: in 3 of 4 trees string columns are only as wide as the longest value of that plate file, extra integer '
+            'History: the tree itself changes between the calls of one case (a later MJD of a plate already read is delivered, '
+            'the latest MJD withdrawn, an earlier MJD or a new plate directory added, a file replaced under the same name with '
+            'other ids in the same and in another shape, a second reduction below the same topdir selected by $RUN2D/run2d=); after '
+            'every change all plates are requested with mjd omitted and the touched ones with and without mjd, expected values '
+            'from the tree as it is then.  Tables: in 3 of 4 trees string columns are only as wide as the longest value of that plate file, extra integer '
             'columns are int16/32/64 and float columns float32/64 per file (wider files hold values the narrower type cannot '
             'represent), column order differs per file; full values are compared (strings after stripping blank padding, numbers '
             'exactly).  '
@@ -375,7 +379,12 @@ class C16(Check):
                          'tab_string_wider_than_first_file_tsobj', 'tab_int_wider_than_first_file_plugmap',
                          'tab_int_wider_than_first_file_zans', 'tab_int_wider_than_first_file_tsobj',
                          'tab_float_wider_than_first_file_plugmap', 'tab_float_wider_than_first_file_zans',
-                         'tab_float_wider_than_first_file_tsobj', 'tab_column_order_differs')
+                         'tab_float_wider_than_first_file_tsobj', 'tab_column_order_differs',
+                         # the survey tree changes between the calls of one process
+                         'hist_mjd_omitted_after_later_mjd_delivered', 'hist_mjd_omitted_after_latest_mjd_withdrawn',
+                         'hist_request_in_new_plate_directory', 'hist_file_replaced_same_shape',
+                         'hist_file_replaced_other_shape', 'hist_mjd_given_after_change',
+                         'hist_run2d_switched_below_same_topdir', 'hist_all_fibres_after_change')
 
     # ------------------------------------------------------------------ setup
     def setup(self):
@@ -412,16 +421,17 @@ class C16(Check):
 
     def budget(self, tier):
         q = tier == 'quick'
-        return {'scrambled': 28 if q else 800,
+        return {'scrambled': 24 if q else 800,
                 'latest': 16 if q else 400,
-                'conventions': 20 if q else 400,
-                'override': 20 if q else 320,
+                'conventions': 16 if q else 400,
+                'override': 16 if q else 320,
                 'path': 12 if q else 200,
                 'sdss': 12 if q else 200,
                 'allfibres': 12 if q else 160,
                 'shared_grid': 12 if q else 160,
                 'reuse': 28 if q else 280,
                 'twin': 8 if q else 100,
+                'history': 12 if q else 200,
                 'append': 1500 if q else 30000,
                 'append_chain': 300 if q else 6000}
 
@@ -489,6 +499,8 @@ class C16(Check):
                 order = ['main', 'twin'] if (i + k) % 2 == 0 else ['twin', 'main']
                 a['target'], b['target'] = order
                 reqs += [a, b]
+        elif cls == 'history':
+            return self.gen_history(rng, i, kwsets)
         elif cls == 'allfibres':
             kind = 'sdss' if i % 2 == 0 else 'boss'
             tree = gen_tree(rng, kind, allfib=True, small=True)
@@ -498,6 +510,114 @@ class C16(Check):
         else:
             raise ValueError(cls)
         return {'kind': 'readspec', 'tree': tree, 'requests': reqs}
+
+    def gen_history(self, rng, i, kwsets):
+        """a tree that changes between the calls of one case: later MJD delivered, latest withdrawn, new plate directory,
+        file replaced under the same name, $RUN2D / topdir switched; every stage asks with and without mjd"""
+        sdss = i % 5 == 4
+        allfib = (not sdss) and i % 4 == 1
+        tree = gen_tree(rng, 'sdss' if sdss else 'boss', small=True, allfib=allfib, decoy=(i % 2 == 0))
+        keep = tree['plates'][:7]
+        if len({f[0] for f in keep}) < 2:
+            keep = tree['plates'][:7]
+        tree['plates'] = keep
+        if tree['decoy']:
+            kk = {(f[0], f[1]) for f in keep}
+            tree['decoy'] = [d for d in tree['decoy'] if (d[0], d[1]) in kk]
+            if not allfib and i % 4 == 0:
+                pool = ['26', '103', '104'] if sdss else ['v5_7_0', 'v5_4_45', 'v5_10_0', 'test']
+                tree['twin_run2d'] = rng.choice([r for r in pool if r != tree['run2d']])
+        lo, hi = (51600, 55024) if sdss else (55025, 59990)
+        work = [list(f) for f in keep]
+        nfib_of = {f[0]: f[2] for f in work}
+
+        def newspec(p, m, like=None, same_shape=False):
+            if same_shape:
+                return [p, m, like[2], like[3], like[4], like[5]]
+            nf = nfib_of.get(p, rng.randint(4, 12)) if allfib else rng.randint(4, 12)
+            nfib_of.setdefault(p, nf)
+            return [p, m, nf, rng.choice([x for x in range(4, 61) if like is None or x != like[3]]),
+                    round(rng.uniform(3.5, 3.6), 4), rng.choice([1e-4, 2e-4])]
+
+        def view(files):
+            return dict(tree, plates=[list(f) for f in files])
+
+        def requests(touched):
+            reqs = []
+            kw = lambda: rng.choice(kwsets)
+            # every plate with mjd omitted at least once per stage (request over ALL plates)
+            lat = _latest(work)
+            allp = sorted(lat)
+            rng.shuffle(allp)
+            rows = {(f[0], f[1]): f for f in work}
+            reqs.append({'style': 'vNv', 'kw': list(kw()), 'shadow': 'good', 'plate': allp, 'mjd': None,
+                         'fiber': [_pick_fibre(rng, rows[(p, lat[p])][2]) for p in allp],
+                         'pform': vec_form(rng, True, 0, len(allp)), 'mform': 'int', 'fform': vec_form(rng, True, 0, len(allp))})
+            for p in touched[:2]:
+                mine = [f for f in work if f[0] == p]
+                if mine:
+                    reqs.append(gen_request(rng, view(mine), rng.choice(['sNv', 'sNs']), kw=kw()))
+                    if allfib:
+                        reqs.append(gen_request(rng, view(mine), 'all_sN', kw=kw()))
+                    reqs.append(gen_request(rng, view(mine), rng.choice(['vvv', 'svv']), kw=kw()))
+            reqs.append(gen_request(rng, view(work), 'vvv', kw=kw()))
+            if tree['decoy']:
+                full = ('topdir', 'run2d', 'run1d')
+                b = gen_request(rng, view(tree['decoy']), rng.choice(['vNv', 'sNv', 'vvv']),
+                                kw=rng.choice([(), (), full, ('run2d',)]), shadow='decoy')
+                b['target'] = 'twin'
+                reqs.insert(rng.randint(1, len(reqs)), b)
+            return reqs
+
+        stages = [{'ops': [], 'requests': requests([])}]
+        for si in range(rng.randint(2, 3)):
+            ops, touched = [], []
+            for _ in range(rng.choice([1, 1, 2])):
+                lat = _latest(work)
+                kinds = ['later', 'remove', 'same', 'newplate', 'later', 'other', 'remove', 'earlier']
+                kind = kinds[(i + 3 * si + len(ops)) % len(kinds)]          # every kind of change in turn
+                cand = sorted(lat)
+                if kind == 'remove':
+                    cand = [q for q in cand if len([f for f in work if f[0] == q]) > 1] or cand
+                p = rng.choice(cand)
+                mine = sorted(f[1] for f in work if f[0] == p)
+                if p in touched:
+                    continue
+                if kind == 'remove' and len(mine) < 2:
+                    kind = 'later'
+                if kind == 'later' and lat[p] + 3 > hi:
+                    kind = 'earlier'
+                if kind == 'later':
+                    spec = newspec(p, lat[p] + rng.randint(1, 3), like=[f for f in work if (f[0], f[1]) == (p, lat[p])][0])
+                    ops.append(['add', spec])
+                    work.append(spec)
+                elif kind == 'earlier':
+                    m = rng.choice([x for x in range(max(lo, mine[0] - 4), mine[-1]) if x not in mine] or [None])
+                    if m is None:
+                        continue
+                    spec = newspec(p, m)
+                    ops.append(['add', spec])
+                    work.append(spec)
+                elif kind == 'remove':
+                    ops.append(['remove', p, lat[p]])
+                    work[:] = [f for f in work if (f[0], f[1]) != (p, lat[p])]
+                elif kind == 'newplate':
+                    p = rng.choice([x for x in (max(lat) + 1, min(lat) - 1, rng.randint(1, 9999)) if 1 <= x <= 9999 and x not in lat]
+                                   or [None])
+                    if p is None:
+                        continue
+                    spec = newspec(p, rng.randint(lo, hi - 4))
+                    ops.append(['add', spec])
+                    work.append(spec)
+                else:
+                    old = rng.choice([f for f in work if f[0] == p and (kind == 'other' or f[1] == lat[p] or rng.random() < 0.5)]
+                                     or [f for f in work if f[0] == p])
+                    spec = newspec(p, old[1], like=old, same_shape=(kind == 'same'))
+                    ops.append(['replace', spec])
+                    work[work.index(old)] = spec
+                touched.append(p)
+            stages.append({'ops': ops, 'requests': requests(touched)})
+        return {'kind': 'readspec', 'tree': tree, 'stages': stages}
 
     def gen_reuse(self, rng, i, kwsets):
         """request vectors that are materialised once and handed to two or three readspec calls"""
@@ -598,13 +718,61 @@ class C16(Check):
                                 table_variation=tv, **common)
             decoy = None
             if t.get('decoy'):
-                decoy = T.write_tree(os.path.join(root, 'decoy'), [tuple(p) for p in t['decoy']],
-                                     file_base=DECOY_BASE, table_variation=None if tv is None else tv + 1, **common)
+                c2 = dict(common)
+                droot = os.path.join(root, 'decoy')
+                if t.get('twin_run2d'):
+                    # second reduction below the SAME topdir: only $RUN2D / run2d= tells the two apart
+                    c2['run2d'] = t['twin_run2d']
+                    droot = os.path.join(root, 'main')
+                decoy = T.write_tree(droot, [tuple(p) for p in t['decoy']],
+                                     file_base=DECOY_BASE, table_variation=None if tv is None else tv + 1, **c2)
             shared = {}        # request components materialised once and handed to several calls (key -> object)
-            for qi, req in enumerate(case['requests']):
-                self.one_request(t, desc, decoy, req, qi, out, shared)
+            if 'stages' not in case:
+                for qi, req in enumerate(case['requests']):
+                    self.one_request(t, desc, decoy, req, qi, out, shared)
+                return
+            # the survey tree is an input that changes between the calls of one process
+            tcur = dict(t, plates=[list(p) for p in t['plates']])
+            primed = set()          # plates already asked about with mjd omitted (what a listing cache would hold)
+            qi = 0
+            for si, st in enumerate(case['stages']):
+                hist = {'stage': si, 'primed': primed, 'later': set(), 'removed': set(), 'newplate': set(),
+                        'same': set(), 'other': set(), 'earlier': set()}
+                for op in st['ops']:
+                    self.apply_op(op, tcur, desc, hist)
+                out.count('hist_stages')
+                for req in st['requests']:
+                    self.one_request(tcur, desc, decoy, req, qi, out, shared, hist)
+                    qi += 1
         finally:
             shutil.rmtree(root, ignore_errors=True)
+
+    def apply_op(self, op, tcur, desc, hist):
+        plates = tcur['plates']
+        if op[0] == 'add':
+            spec = list(op[1])
+            have = [f for f in plates if f[0] == spec[0]]
+            T.add_file(desc, tuple(spec))
+            plates.append(spec)
+            if not have:
+                hist['newplate'].add(spec[0])
+            elif spec[1] > max(f[1] for f in have):
+                hist['later'].add(spec[0])
+            else:
+                hist['earlier'].add(spec[0])
+        elif op[0] == 'remove':
+            T.remove_file(desc, op[1], op[2])
+            plates[:] = [f for f in plates if (f[0], f[1]) != (op[1], op[2])]
+            hist['removed'].add(op[1])
+        elif op[0] == 'replace':
+            spec = list(op[1])
+            old = [f for f in plates if (f[0], f[1]) == (spec[0], spec[1])][0]
+            T.remove_file(desc, spec[0], spec[1])
+            T.add_file(desc, tuple(spec))
+            plates[plates.index(old)] = spec
+            hist['same' if (old[2], old[3]) == (spec[2], spec[3]) else 'other'].add((spec[0], spec[1]))
+        else:
+            raise ValueError(op)
 
     def build_env(self, t, desc, decoy, req):
         env = dict(desc['env'])
@@ -616,7 +784,7 @@ class C16(Check):
                 var, bad = redux, (decoy['topdir'] if decoy else None)
             elif name == 'run2d':
                 kw[name] = desc['run2d']
-                var, bad = 'RUN2D', 'v0_0_0'
+                var, bad = 'RUN2D', (decoy['run2d'] if decoy and decoy['run2d'] != desc['run2d'] else 'v0_0_0')
             else:
                 kw[name] = desc['run1d']
                 var, bad = 'RUN1D', 'v0_0_1'
@@ -626,9 +794,41 @@ class C16(Check):
                 env[var] = bad
         return env, kw
 
-    def one_request(self, t, desc, decoy, req, qi, out, shared=None):
+    def one_request(self, t, desc, decoy, req, qi, out, shared=None, hist=None):
         S = self.S
         shared = {} if shared is None else shared
+        if hist is not None:
+            # which change of the tree this request comes after (expected values below are from the tree AS IT IS NOW)
+            rp = set(req['plate'] if isinstance(req['plate'], list) else [req['plate']])
+            if req.get('target') == 'twin':
+                if t.get('twin_run2d'):
+                    out.count('hist_run2d_switched_below_same_topdir')
+                out.count('hist_other_tree_between_calls')
+            else:
+                files = {(f[0], f[1]) for f in t['plates']}
+                rf = set(zip(req['plate'], req['mjd'])) if isinstance(req['mjd'], list) and isinstance(req['plate'], list) \
+                    else ({(req['plate'], req['mjd'])} if req['mjd'] is not None and not isinstance(req['plate'], list)
+                          and not isinstance(req['mjd'], list) else set())
+                if req['mjd'] is None:
+                    if rp & hist['later'] & hist['primed']:
+                        out.count('hist_mjd_omitted_after_later_mjd_delivered')
+                    if rp & hist['removed'] & hist['primed']:
+                        out.count('hist_mjd_omitted_after_latest_mjd_withdrawn')
+                    if rp & hist['earlier'] & hist['primed']:
+                        out.count('hist_mjd_omitted_after_earlier_mjd_delivered')
+                    if req['fiber'] is None and rp & (hist['later'] | hist['removed']) & hist['primed']:
+                        out.count('hist_all_fibres_after_change')
+                    hist['primed'] |= rp
+                elif hist['stage'] > 0 and rp & (hist['later'] | hist['removed'] | hist['earlier']):
+                    out.count('hist_mjd_given_after_change')
+                if rp & hist['newplate']:
+                    out.count('hist_request_in_new_plate_directory')
+                lat = _latest(t['plates'])
+                asked = rf if req['mjd'] is not None else {(p, lat[p]) for p in rp}
+                if asked & hist['same']:
+                    out.count('hist_file_replaced_same_shape')
+                if asked & hist['other']:
+                    out.count('hist_file_replaced_other_shape')
         if req.get('target') == 'twin':
             # aimed at the second tree of the case (same plate numbers and MJDs, other shapes / solutions / ids)
             t = dict(t, plates=t['decoy'])
@@ -933,6 +1133,10 @@ class C16(Check):
         if case['kind'] != 'readspec':
             return case
         c = dict(case)
+        if 'stages' in case:
+            c['stages'] = [{'ops': st['ops'], 'requests': st['requests'][:1], 'n_requests': len(st['requests'])}
+                           for st in case['stages'][:3]]
+            return c
         c['requests'] = case['requests'][:2]
         c['n_requests'] = len(case['requests'])
         return c
